@@ -236,6 +236,21 @@ def episode(ctx, env, inner_of, rng, where, padding, first_obs):
                       inner.observation_space, f"{where} after a direct dispatch", check_membership=padding)
         op = rng.choice(inner.dispatcher.available_operations())
         m = rng.choice(op.machines)
+        if rng.random() < 0.12:
+            # an action that is in the space but not legal now (a machine the job's next operation
+            # cannot run on): the environment refuses it, the agent's loop catches the error and
+            # goes on - the following observations are as declared
+            wrong = [mm for mm in range(inner.instance.num_machines) if mm not in op.machines]
+            if wrong:
+                try:
+                    env.step((op.job_id, rng.choice(wrong)))
+                except Exception:
+                    ctx.count("illegal_actions_refused_then_episode_continued")
+                else:
+                    # (whether illegal requests are refused is C09's business; this episode is not
+                    # judged any further)
+                    ctx.count("illegal_action_accepted_episode_left_unjudged")
+                    return True
         act = (op.job_id, m if len(op.machines) > 1 or rng.random() < 0.6 else -1)
         obs, reward, done, trunc, info = env.step(act)
         steps += 1
